@@ -316,6 +316,7 @@ def run(chk, repo, tier):
 
     run_h7(chk, repo, in_scope)
     run_h8_h10(chk, repo)
+    run_h11(chk, repo)
 
     # ---------------------------------------------------------------- H5
     mh = repo.cls('pharmpy.workflows.hashing.ModelHash').methods.get('__init__')
@@ -565,3 +566,32 @@ def run_h8_h10(chk, repo):
                       witness='a dataset with a DATE or hh:mm TIME column: the key differs between two processes')
     if not content and not raw:
         raise AnalysisError('H10: how the dataset values reach the hash was not recognised')
+
+
+def run_h11(chk, repo):
+    """from_dict rebuilds exactly what to_dict wrote: where the alternative constructor `create` normalises its input (folds a
+    nested piecewise, simplifies, reorders), from_dict must use the plain constructor"""
+    H11 = chk.rule('H11', 'statement classes: from_dict does not go through a normalising create()', floor=1)
+    sm = repo.module('pharmpy.model.statements')
+    NORMALISERS = ('fold', 'simplify', 'expand', 'canonical', 'sorted', 'normal')
+    n = 0
+    for c in dict.values(sm.classes):
+        cr, fd = c.methods.get('create'), c.methods.get('from_dict')
+        if cr is None or fd is None:
+            continue
+        norm = sorted({(dotted(x.func) or '').split('.')[-1] for x in calls_in(cr.node)
+                       if any(k in (dotted(x.func) or '').split('.')[-1].lower() for k in NORMALISERS)})
+        if not norm:
+            continue
+        n += 1
+        via_create = [x for x in calls_in(fd.node) if isinstance(x.func, ast.Attribute) and x.func.attr == 'create'
+                      and unparse(x.func.value) in ('cls', c.name)]
+        chk.instance(H11, f'{c.name}: create() normalises with {norm}; from_dict calls it: {bool(via_create)}')
+        for x in via_create:
+            chk.violation(H11, sm.rel, fd.qualname, unparse(x)[:80],
+                          f'{c.name}.create applies {norm}: an object built with the plain constructor (the parser, reassign) does '
+                          f'not come back equal', line=x.lineno,
+                          witness='a statement whose piecewise has a piecewise in one branch (full_expression + reassign): '
+                                  'from_dict(to_dict(s)) != s and the model gets another hash')
+    if n == 0:
+        raise AnalysisError('H11: no class with a normalising create() and a from_dict found')
